@@ -138,8 +138,11 @@ func TestC17(t *testing.T) {
 			keys, c.Gen = genK2(t, maxN), "K2"
 		}
 		c.Keys = hexes(keys)
-		if pickU(t, "opthistory", 3) == 0 {
-			c.Scrib = 1
+		switch pickU(t, "history", 4) {
+		case 0:
+			c.Scrib = 1 // option variables shared with an earlier Complete build
+		case 1:
+			c.Scrib = 2 // loaded into an instance that held and serialised a larger index
 		}
 		// two non-empty prefixes; keep the result within the documented key length
 		longest := 0
